@@ -1204,7 +1204,15 @@ class MiniInterp:
             return dict(out)
         return _Iter(out)
 
+    @staticmethod
+    def is_opaque(v) -> bool:
+        """the result of a library call that is not modelled (recorded as an effect): nothing is known about its value"""
+        return isinstance(v, Sym) and v.cls is None and (v.name.startswith("ext:") or v.name.startswith("ext."))
+
     def compare(self, op, a, b):
+        if (self.is_opaque(a) or self.is_opaque(b)) and a is not b and not (isinstance(op, (ast.Is, ast.IsNot)) and (a is None or b is None)):
+            # a decision that hangs on the value of an unmodelled library call is not decided here
+            raise Unknown(f"comparison with the result of an unmodelled library call ({a if self.is_opaque(a) else b})")
         if isinstance(op, (ast.Is, ast.IsNot)):
             same = a is b or (a is None and b is None)
             if not same and isinstance(a, T) and isinstance(b, T) and a and b and a[0] in ("class", "builtin", "external") and a[0] == b[0]:
